@@ -41,21 +41,23 @@
 #endif
 
 /* time profiles: index by node id (samples first) */
-static const double h_time_profiles[6][MAXN] = {
+static const double h_time_profiles[7][MAXN] = {
     { 0, 0, 1, 2, 3, 4, 5, 6 },   /* strictly increasing internal nodes */
     { 0, 0, 1, 1, 2, 2, 3, 3 },   /* ties among internal nodes */
     { 0, 1, 1, 2, 3, 4, 5, 6 },   /* samples at different times; sample/internal tie */
     { -3, -3, -2, -1, 0, 1, 2, 3 }, /* negative times */
     { 0, 0, 0, 1, 2, 3, 4, 5 },   /* three nodes at time zero */
     { 0, 0.25, 1.5, 2.25, 4.75, 5.5, 6.5, 7.25 }, /* fractional times (dyadic: exact in binary64) */
+    { 0, 1, 2, 3, 4, 5, 6, 7 },   /* all distinct: chains through every node are possible */
 };
 /* sample profiles: bit u set <=> node u is flagged as a sample */
-static const int h_sample_profiles[5] = {
+static const int h_sample_profiles[6] = {
     0x3,                  /* nodes 0,1 */
     0x7,                  /* nodes 0,1,2 */
     0x3 | (1 << (NN - 1)), /* 0,1 and the last (oldest) node: internal sample */
     0x1,                  /* a single sample */
     0x0,                  /* no samples at all */
+    0xff,                 /* every node is a sample (nested internal samples) */
 };
 
 static double site_pos[NS + 1];
@@ -91,7 +93,12 @@ h_build_treeseq(tsk_table_collection_t *t, tsk_treeseq_t *ts, h_tables_t *T)
     T->ne = ne;
     for (j = 0; j < NN; j++) {
         T->time[j] = h_time_profiles[tp][j];
+#ifdef SAMPLE_FLAG_EXTRA
+        /* sample nodes also carry another (user-defined) flag bit */
+        T->flags[j] = (h_sample_profiles[sp] >> j) & 1 ? (TSK_NODE_IS_SAMPLE | SAMPLE_FLAG_EXTRA) : 0;
+#else
         T->flags[j] = (h_sample_profiles[sp] >> j) & 1 ? TSK_NODE_IS_SAMPLE : 0;
+#endif
         ret = tsk_node_table_add_row(&t->nodes, T->flags[j], T->time[j], -1, -1, NULL, 0);
         sym_assume(ret == j);
     }
